@@ -20,7 +20,7 @@ def run(ctx):
     # ---- R1 every action classification applies the same three-way routing -------------------
     adds = [x for x in own_nodes(ex.node) if isinstance(x, ast.Call) and isinstance(x.func, ast.Attribute) and x.func.attr == "add"
             and dotted(x.func.value) == "actions"]
-    c.floor("R1", "action classification sites in the extractor", len(adds), 2)
+    c.expect("R1", "action classification sites in the extractor", len(adds), 2, ex, "logic discovery no longer collects action names from both the state/transition actions and the invoke handlers: a referenced action stays unbound until it runs")
     for i, x in enumerate(sorted(adds, key=lambda n: n.lineno)):
         atoms = guards_at(ex, x)
         not_spawn = any("is_spawn_action" in norm(a) and not pol for a, pol in atoms)
@@ -91,7 +91,7 @@ def run(ctx):
     for v in VIEWS:
         ea = roles(ctx, v).execute_actions
         bcalls = self_calls_in(ea, "_execute_builtin_action")
-        c.floor("R3", f"built-in dispatch in {ea.short}", len(bcalls), 1)
+        c.expect("R3", f"built-in dispatch in {ea.short}", len(bcalls), 1, ea, f"{ea.short} no longer dispatches built-in actions")
         for call in bcalls:
             ok = False
             for a, pol in guards_at(ea, call):
